@@ -480,7 +480,8 @@ func (iv *Inv) expect(t *Tree) *Expectation {
 	for _, in := range iv.Inputs {
 		clean := filepath.Clean(in)
 		root := filepath.Dir(clean)
-		if strings.HasSuffix(in, "/") {
+		if strings.HasSuffix(in, "/") || strings.HasSuffix(in, "/.") || in == "." {
+			// README: "Both `src/` and `src/.` are equivalent"
 			root = clean
 		}
 		e, _ := t.resolve(clean, 0)
